@@ -38,13 +38,17 @@ Plains == <<
   <<LBrace, I(1), X("currentfile"), X("closefile"), I(2), RBrace, X("exec")>>,  \* closefile inside a procedure abandons the rest
   <<N("a"), I(1), X("def"), I(7), X("stop"), I(8)>>,                           \* 12: stop ends the program, not just the section
   <<LBrace, I(7), LBrace, X("stop"), RBrace, X("exec"), I(8), RBrace, X("loop"), I(9)>>,   \* 13: stop from inside a loop
-  <<LBrace, X("currentdict"), X("begin"), RBrace, X("loop")>>                   \* 14: the dictionary stack limit holds inside the section
+  <<LBrace, X("currentdict"), X("begin"), RBrace, X("loop")>>,                  \* 14: the dictionary stack limit holds inside the section
+  \* 15: entered with systemdict already on top: the section still pushes its own entry, so that one `end`
+  \* inside leaves the outer systemdict current (the definition lands there, not in userdict)
+  <<X("end"), N("probe"), I(1), X("def"), X("currentdict"), X("systemdict"), X("eq")>> \o Close
 >>
 \* which plaintexts end in closefile (only those may be followed by a trailer)
 Closes(p) == p \notin {9, 10, 14}
 \* tokens placed before "currentfile eexec": plaintext 14 enters the section with 18 dictionaries open,
 \* so that the section's own systemdict is the last entry the limit allows
-PreExtra(p) == IF p = 14 THEN [j \in 1..36 |-> IF j % 2 = 1 THEN X("currentdict") ELSE X("begin")] ELSE <<>>
+PreExtra(p) == IF p = 14 THEN [j \in 1..36 |-> IF j % 2 = 1 THEN X("currentdict") ELSE X("begin")]
+               ELSE IF p = 15 THEN <<X("systemdict"), X("begin")>> ELSE <<>>
 
 Pre == <<N("before"), I(1), X("def"), X("currentfile"), X("eexec")>>
 ZeroLines == [j \in 1..8 |-> I(0)]
@@ -68,12 +72,14 @@ LegalLead(form, c) == IF form = "bin" THEN c[1] # "blank" /\ \E j \in 1..4 : c[j
 WsPatterns == {"none", "every2", "lines64", "crlf7", "at4", "at5", "at6", "at7", "at9", "tabs3"}
 Blanks == {"sp", "lf", "crlf", "tabsplf"}
 Trailers == {"zeros", "tokens", "none", "second"}
+\* the white space that ends the last token of the section (a CR LF pair is one line end)
+EndWs == {"lf", "cr", "crlf"}
 
 VARIABLES s, stim, phase
 vars == <<s, stim, phase>>
 Init == /\ phase = "pick"
         /\ stim = [p |-> 1, form |-> "bin", lead |-> <<"other", "other", "other", "other">>, ws |-> "none",
-                   blank |-> "sp", trailer |-> "none"]
+                   blank |-> "sp", trailer |-> "none", endws |-> "lf"]
         /\ s = FreshState(<<>>, 0)
 \* two sweeps: every legal lead pattern with the first plaintext, and every plaintext x form x
 \* white space x blanks x trailer with a default lead
@@ -87,11 +93,15 @@ PickLead == /\ phase = "pick"
 DefaultLead(f) == IF f = "bin" THEN <<"other", "digit", "af", "other">>
                   ELSE IF f = "hexupper" THEN <<"digit", "AF", "digit", "AF">> ELSE <<"digit", "af", "digit", "af">>
 PickProg == /\ phase = "pick"
-            /\ \E p \in 1..Len(Plains), f \in Forms, w \in WsPatterns, b \in Blanks, t \in Trailers :
+            /\ \E p \in 1..Len(Plains), f \in Forms, w \in WsPatterns, b \in Blanks, t \in Trailers, e \in EndWs :
                   /\ (f = "bin" => w = "none")
                   /\ (~Closes(p) => t = "none")
                   /\ (Tier = "quick" => (b \in {"sp", "crlf"} \/ p = 1))
-                  /\ stim' = [p |-> p, form |-> f, lead |-> DefaultLead(f), ws |-> w, blank |-> b, trailer |-> t]
+                  \* a lone CR before the trailer: a reader that looks for the LF of a CR LF pair may take the
+                  \* first character of what follows (this is what the zeros are for): only the zeros may follow
+                  /\ (e = "cr" => t \in {"zeros", "none"})
+                  /\ (e # "lf" => (w \in {"none", "lines64", "crlf7"} /\ b = "sp"))
+                  /\ stim' = [p |-> p, form |-> f, lead |-> DefaultLead(f), ws |-> w, blank |-> b, trailer |-> t, endws |-> e]
             /\ phase' = "start" /\ UNCHANGED s
 PreOf(p) == <<N("before"), I(1), X("def")>> \o PreExtra(p) \o <<X("currentfile"), X("eexec")>>
 \* the operation budget runs out inside (or around) the section: plaintexts 1, 2, 13 under every budget
@@ -100,7 +110,7 @@ BudgetMax == 45
 PickBudget == /\ phase = "pick"
               /\ \E p \in {1, 2, 13}, f \in {"bin", "hexlower"}, b \in 1..BudgetMax :
                     stim' = [p |-> p, form |-> f, lead |-> DefaultLead(f), ws |-> (IF f = "bin" THEN "none" ELSE "lines64"),
-                             blank |-> "sp", trailer |-> (IF p = 13 THEN "none" ELSE "tokens"), budget |-> b]
+                             blank |-> "sp", trailer |-> (IF p = 13 THEN "none" ELSE "tokens"), budget |-> b, endws |-> "lf"]
               /\ phase' = "start" /\ UNCHANGED s
 Feed(st) == PreOf(st.p) \o Plains[st.p] \o Trailer(st.trailer)
 Start == /\ phase = "start" /\ phase' = "run"
@@ -110,7 +120,7 @@ Run == /\ phase = "run" /\ s.status = "running"
 Next == PickLead \/ PickProg \/ PickBudget \/ Start \/ Run
 
 Vector == [pre |-> PreOf(stim.p), plain |-> Plains[stim.p], trailer |-> stim.trailer, form |-> stim.form, lead |-> stim.lead,
-           ws |-> stim.ws, blank |-> stim.blank, p |-> stim.p, init |-> <<>>, maxops |-> s.maxops, nops |-> s.nops,
+           ws |-> stim.ws, blank |-> stim.blank, endws |-> stim.endws, p |-> stim.p, init |-> <<>>, maxops |-> s.maxops, nops |-> s.nops,
            status |-> s.status, errs |-> s.errs, ost |-> s.ost, dst |-> s.dst,
            heap |-> s.heap.c, nheap |-> s.heap.n]
 Emit == (phase = "run" /\ s.status \in {"done", "error"}) => CSVWrite("%1$s", <<ToJson(Vector)>>, OutFile)
@@ -119,7 +129,7 @@ ASSUME JsonSerialize(BaseFile, [heap |-> FreshHeap, nfixed |-> NFixed])
 \* design-level: the dictionary stack after the run is the one before the section, the
 \* section never nests, and no behaviour is skipped (every generated stimulus has an outcome)
 Inv == /\ DictStackBounded(s) /\ DictStackBase(s)
-       /\ (phase = "run" /\ s.status = "done") => (s.eex = 0 /\ (stim.p \notin {5, 12, 13} => Len(s.dst) = 2))
+       /\ (phase = "run" /\ s.status = "done") => (s.eex = 0 /\ (stim.p \notin {5, 12, 13, 15} => Len(s.dst) = 2))
        /\ (phase = "run") => s.status # "skip"
 \* the section ends by closefile or at the end of the file with the dictionary stack restored, or the
 \* program is stopped (nothing is left to run and the dictionary stack stays as it is)
